@@ -2,8 +2,8 @@
 CONF = {
     'coq_sample': 15,   # cases re-evaluated inside Coq by vm_compute against the extracted runner's output
     'interesting': ['truncated-prefix-of-valid', 'option-length-extreme', 'residue-options', 'multi-option', 'pad-residue',
-                    'odd-payload', 'dirty-buffer', 'no-fixlengths', 'error-after-add', 'error-residue', 'jumbo', 'dispatch-table', 'ext-frag', 'ext-rtg'],
-    'rule': 'Kinds ip6/hbh/dst/frag/rtg (frag, rtg = IPv6Fragment, IPv6Routing through NewPacket lazy with recovery off; truncations, header length and routing type mutations, built values with reserved/address lengths 0..17). Packets and extension headers built field by field by the harness (0..5 TLV options incl. Pad1/PadN, '
+                    'odd-payload', 'dirty-buffer', 'no-fixlengths', 'error-after-add', 'error-residue', 'jumbo', 'dispatch-table', 'ext-frag', 'ext-rtg', 'reused-buffer-layers'],
+    'rule': 'Sequences of 3-4 stacks written with SerializeLayers/SerializePacket into ONE reused SerializeBuffer (decoded stacks with the hop-by-hop header as a layer of its own, built IPv6 with the header as a field, both, FixLengths jumbograms, every order), each output through the round-trip oracle. Kinds ip6/hbh/dst/frag/rtg (frag, rtg = IPv6Fragment, IPv6Routing through NewPacket lazy with recovery off; truncations, header length and routing type mutations, built values with reserved/address lengths 0..17). Packets and extension headers built field by field by the harness (0..5 TLV options incl. Pad1/PadN, '
             'padded to 8), every truncation length, header length / option length / IPv6 length forced to 0,1,max,+-1 and around each bound; '
             'the IPv6, hop-by-hop and destination layers of the packet literals of layers/*_test.go (go/ast), whole, truncated, mutated; '
             'jumbogram length/option combinations and payloads of 65535..70001 octets; ordered pairs into reused objects; serialization of '
@@ -12,7 +12,7 @@ CONF = {
             '0..7; the IPProtocol->LayerType table for all 256 values; a malformed stream.',
     'assumptions': ['input slices have cap == len (spare capacity can only hide a missing length check)',
                     'Go int unbounded (sizes < 2^62); fmt/net.IP.String/reflect total on non-nil values',
-                    'the serialize buffer\'s layer list contains no IPv6HopByHop (the "already serialized" branch of IPv6.SerializeTo is not modelled)'],
+                    'SerializeLayers: Clear() empties the buffer\'s layer list (writer.go; C18), the layers pushed within a stack are an explicit argument of ip6_serialize_in'],
     'trusted_base': ['model: coq/Model/Lip6Model.v is a hand transcription of layers/ip6.go:54-134 (jumbo helpers), 139-302 (IPv6), '
                      '307-418 (TLV options), 411-432, 476-536, 679-756 (extension headers) of the repaired tree; coq/Model/Lip6xModel.v: IPv6Routing, IPv6Fragment (ip6.go:588-700)'],
     'explanation': 'Per-layer theorems C19/C05/C06/C07/C01 about the Gallina model of the IPv6 codec; the correspondence run ties the '
